@@ -722,6 +722,35 @@ func ruleC02Fields(c *Checker) {
 			}
 		})
 	}
+	// the archive format is left to archive/tar (or is PAX): USTAR cannot hold a name component over 100
+	// bytes, a non-ASCII name or a long link target, and WriteHeader fails for trees the property includes;
+	// and the modification time is the file's own (archive/tar rounds it as the format requires)
+	for _, fn := range sortedFuncs(p.reach(pack)) {
+		eachInstr(fn, func(in ssa.Instruction) {
+			st, ok := in.(*ssa.Store)
+			if !ok {
+				return
+			}
+			fa, ok := st.Addr.(*ssa.FieldAddr)
+			if !ok {
+				return
+			}
+			f := fieldOf(fa)
+			if f == nil || f.Pkg() == nil || f.Pkg().Path() != "archive/tar" || !isHeaderType(fa.X.Type()) {
+				return
+			}
+			switch f.Name() {
+			case "Format":
+				k, isC := constInt(st.Val)
+				// tar.FormatUnknown = 0, FormatUSTAR = 2, FormatPAX = 4, FormatGNU = 8
+				c.check(isC && (k == 0 || k == 4), R, p.FuncName(fn), "header format unrestricted", p.Pos(st.Pos()), "FormatUnknown (archive/tar picks PAX when a field needs it) or PAX", "the header format is pinned to one that cannot represent every entry (USTAR: names over 100 bytes per component, non-ASCII names, long link targets; GNU: not read back the same everywhere): Pack fails, or the name does not survive, for trees with such entries")
+			case "ModTime":
+				cl, isCall := canon(st.Val).(*ssa.Call)
+				okv := isCall && cl.Call.IsInvoke() && cl.Call.Method.Name() == "ModTime"
+				c.check(okv, R, p.FuncName(fn), "ModTime recorded as the file's", p.Pos(st.Pos()), "info.ModTime() verbatim", "the modification time written to the header is computed from the file's (rounded, truncated, shifted) instead of being the file's own: the round trip is off by up to the rounding, and a format chosen to fit the rounded value cannot fit others")
+			}
+		})
+	}
 	relevant := []string{"Name", "Typeflag", "Linkname", "Mode", "ModTime"}
 	for _, f := range relevant {
 		pos, isRead := read[f]
